@@ -488,11 +488,7 @@ namespace bxdecay0 {
 
       // Load/parse a line of probabilities:
       {
-        unsigned int n1 = _pimpl_->tab_prob.e_nsamples[0];
         unsigned int n2 = _pimpl_->tab_prob.e_nsamples[1];
-        if (prob_index == 0) {
-          _pimpl_->tab_prob.prob.reserve(n1 * n2);
-        }
         if (e2_pdf_count >= (int)_pimpl_->tab_prob.nsamples) {
           throw std::logic_error("bxdecay0::dbd_gA::_load_tabulated_pdf_: Too many lines of p.d.f. values at line #"
                                  + std::to_string(nlines) + "!");
